@@ -280,3 +280,61 @@ Proof.
     vm_compute in E. discriminate.
   - apply (load_suppression_lemma f7_cfg (init f7_rows) 1 100 (S n)).
 Qed.
+
+(* (seeded C06-9) cleaner.go AddCleanTask registers the retry under the JOINED CACHE KEYS instead
+   of a random timer key: in the process-wide timing wheel a later failed invalidation of the same
+   key list - in ANOTHER world, on another Redis - replaces the pending retry of the first.  The
+   first world's entry is never deleted: after recovery and the cleaner's tick nothing is
+   outstanding there, every node is up, and the read is stale.  In the product model
+   (ProofsE.wfinal: a retry belongs to the store it failed on) the same history invalidates both. *)
+From GZ Require Import C06.ProofsE.
+
+Fixpoint keys_eqb (a b : list key) : bool :=
+  match a, b with
+  | [], [] => true
+  | x :: a', y :: b' => key_eqb x y && keys_eqb a' b'
+  | _, _ => false
+  end.
+
+(* the tasks of [s] that survive the registration of [added] under the same timer keys *)
+Definition coalesced (added : list task) (s : state) : state :=
+  mkState (db s) (dbFault s) (cache s) (cfault s)
+          (filter (fun t => negb (existsb (fun a => keys_eqb (tkeys a) (tkeys t)) added)) (pending s))
+          (lost s) (clock s).
+
+Fixpoint mapi {A B} (f : nat -> A -> B) (i : nat) (l : list A) : list B :=
+  match l with [] => [] | x :: l' => f i x :: mapi f (S i) l' end.
+
+Definition wstep_coalesced (ws : list state) (x : wop) : list state :=
+  match x with
+  | WOp w c o =>
+    let s := nth w ws (init []) in
+    let s' := fst (step c s o) in
+    let added := skipn (length (pending s)) (pending s') in
+    mapi (fun j sj => if Nat.eqb j w then s' else coalesced added sj) 0 ws
+  | _ => wstep ws x
+  end.
+
+Definition wfinal_coalesced (ws : list state) (h : list wop) : list state := fold_left wstep_coalesced h ws.
+
+Theorem coalesced_by_key_refuted :
+  exists rows c h p t u v,
+    NoDup (map fst rows) /\
+    all_disciplinedm (init rows) (wproj 0 h) = true /\ all_disciplinedm (init rows) (wproj 1 h) = true /\
+    let s0 := nth 0 (wfinal_coalesced [init rows; init rows] h) (init []) in
+    (* world 0 after recovery and the tick: nothing outstanding, all up - and stale *)
+    cfault s0 = [] /\ pending s0 = [] /\ lost s0 = [] /\ dirty s0 (KP p) = false /\
+    step c s0 (OTake p t) = (s0, mkObs (RRow p u v) 0 0) /\ db_get p (db s0) <> Some (u, v) /\
+    (* the product model: world 0's key is invalidated *)
+    lookup (clock (nth 0 (wfinal [init rows; init rows] h) (init [])))
+           (cache (nth 0 (wfinal [init rows; init rows] h) (init []))) (KP p) = None.
+Proof.
+  exists f7_rows, f7_cfg,
+    [WOp 0 f7_cfg (OTake 1 100); WOp 1 f7_cfg (OTake 1 100);
+     WOp 0 f7_cfg (OCFault 0 true); WOp 1 f7_cfg (OCFault 0 true);
+     WOp 0 f7_cfg (OExec 1 (Some (7, 42)) [KP 1; KU 7]); WOp 1 f7_cfg (OExec 1 (Some (7, 43)) [KP 1; KU 7]);
+     WOp 0 f7_cfg (OCFault 0 false); WOp 1 f7_cfg (OCFault 0 false); WClean 1],
+    1, 100, 7, 41.
+  split; [repeat constructor; cbn; intuition|].
+  vm_compute. repeat split; discriminate.
+Qed.
